@@ -74,6 +74,17 @@ class Boolean(Primitive):
         raise _any.UndefinedOperatorError
 
 
+def render_integer(value: int) -> str:
+    """
+    The decimal notation of the integer; CPython refuses to produce it for very long integers (ValueError past 4300
+    digits by default), in which case the hexadecimal notation - which is valid DSDL as well - is used instead.
+    """
+    try:
+        return str(value)
+    except ValueError:
+        return hex(value)
+
+
 class Rational(Primitive):
     TYPE_NAME = "rational"
 
@@ -95,7 +106,7 @@ class Rational(Primitive):
         """
         if self.is_integer():
             return self._value.numerator
-        raise _any.InvalidOperandError("Rational %s is not an integer" % self._value)
+        raise _any.InvalidOperandError("Rational %s is not an integer" % self)
 
     def is_integer(self) -> bool:
         """Whether the demonimator equals one."""
@@ -111,7 +122,9 @@ class Rational(Primitive):
 
     def __str__(self) -> str:
         try:
-            return str(self._value)
+            if self._value.denominator == 1:
+                return render_integer(self._value.numerator)
+            return "%s/%s" % (render_integer(self._value.numerator), render_integer(self._value.denominator))
         except AttributeError:  # pragma: no cover
             return "Rational(UNINITIALIZED)"
 
@@ -176,7 +189,7 @@ class Rational(Primitive):
             try:
                 result = impl(self._value, right._value)
             except ZeroDivisionError:
-                raise _any.InvalidOperandError("Cannot divide %s by zero" % self._value) from None
+                raise _any.InvalidOperandError("Cannot divide %s by zero" % self) from None
             except OverflowError:
                 raise _any.InvalidOperandError("The result of the operation is too large to be represented") from None
             if isinstance(result, complex):  # E.g., a fractional power of a negative number.
